@@ -17,7 +17,7 @@ LEVEL = "exploration"
 REQUIRED_CLASSES = ["ok"]
 RULE = ("for every (input dtype, output dtype) pair: alphabet = {input "
         "min/max, output min/max, 0, +-1, +-0.5, +-1.5, +-2.5, 2^24+-1, "
-        "2^53+-1, 2^63, 2^64-2048, float32 max, values beyond float32 max} "
+        "2^53+-1, 2^63, 2^64-2048, float32 max, values beyond float32 max, float32 midpoints 2^k + 2^(k-24) for k up to 63} "
         "each also +-1, +-0.5 and its neighbours in the input lattice, "
         "restricted to values the input type represents exactly; evaluated "
         "(a) all together in one array in 6 layouts (C, Fortran, strided, "
@@ -65,6 +65,17 @@ def alphabet(tin, tout):
                                       2 ** 31, 2 ** 32, 2 ** 64, 2 ** 65,
                                       -2 ** 40))
     base.update([ex.F32_MAX * 2, -ex.F32_MAX * 2, Fraction(10) ** 39])
+    if tout == "float32":
+        # midpoints between consecutive float32 values at large magnitudes
+        # (+-1 is added below): a conversion that rounds twice (through
+        # float64) goes wrong just past them
+        for k in (24, 25, 31, 32, 40, 52, 53, 54, 55, 62, 63):
+            base.add(Fraction(2 ** k + 2 ** (k - 24)))
+            base.add(Fraction(2 ** k + 3 * 2 ** (k - 24)))
+    if tout == "uint64":
+        # the largest float64 below 2^64 and its neighbours
+        base.update(Fraction(v) for v in (2 ** 64 - 2048, 2 ** 64 - 4096,
+                                          2 ** 63 + 1024))
     cand = set(base)
     for b in base:
         for d in (1, -1, Fraction(1, 2), Fraction(-1, 2)):
